@@ -139,6 +139,25 @@ class Ctx:
             self._specdir = d
         return self._specdir
 
+    def apalache(self, module, inv, timeout=300):
+        """Symbolic (unbounded over its integer parameters) check of a small typed lemma module with Apalache.
+        A counterexample means the specification library contradicts itself: Infra, never a property verdict.
+        If the tool cannot run here, that is recorded and the check goes on."""
+        d = self.specdir()
+        outdir = os.path.join(self.tmp, "apalache-out-%s" % module.replace(".tla", ""))
+        try:
+            p = subprocess.run(["apalache-mc", "check", "--inv=" + inv, "--length=1", "--out-dir=" + outdir, module], cwd=d,
+                               stdout=subprocess.PIPE, stderr=subprocess.STDOUT, text=True, timeout=timeout)
+        except (OSError, subprocess.TimeoutExpired) as e:
+            self.cov.setdefault("apalache", []).append(dict(module=module, inv=inv, result="skipped: %s" % type(e).__name__))
+            return None
+        ok = "The outcome is: NoError" in p.stdout
+        if "The outcome is: Error" in p.stdout:
+            raise Infra("Apalache refutes %s!%s (specification library inconsistent): %s" % (module, inv, p.stdout[-600:]))
+        self.cov.setdefault("apalache", []).append(dict(module=module, inv=inv, result="proved for all parameter values" if ok else "skipped: no verdict"))
+        log("[%s] Apalache %s!%s: %s" % (self.prop, module, inv, "NoError" if ok else "no verdict"))
+        return ok
+
     def tlc(self, module, cfg, workers=16, heap="8g", env=None, timeout=900, simulate=None,
             depth=None, extra=None, allow_violation=False, deadlock=None, count=True):
         """Run TLC; returns dict(rc, out, generated, distinct, emitted[list of json objects],
